@@ -1,6 +1,7 @@
 package smtp
 
 import (
+	"github.com/emersion/go-sasl"
 	"io"
 )
 
@@ -315,5 +316,70 @@ func verif_C19_threshold() {
 	} else {
 		verifReach("C19.threshold-open")
 		verifAssert(len(reps) == 1+answered, "C19.threshold-one-reply-per-line")
+	}
+}
+
+// verif_C19_limit_auth: the line-length limit right behind a SASL exchange.
+// AUTH without initial response, the 334 challenge, the client's response (a
+// valid one, a cancelling "*", or bad base64) and then a NOOP line of arbitrary
+// length around the maximum followed by MAIL, in four segmentations (all in
+// one read, response and rest in separate reads, rest cut before the probed
+// line, octet by octet). A line of max+2 or more is refused and the connection
+// closed without MAIL reaching the backend; a line within the maximum is not
+// refused for its length.
+func verif_C19_limit_auth() {
+	max := 24
+	ll := nondetInt(max-2, max+4) // total length of the probed line including CRLF
+	m := &vsasl{failAt: -1, steps: 1, challenge: [][]byte{[]byte("c")}}
+	m.fail = nondetBool()
+	be := &vbackend{authSession: true, mechs: []string{"XVERIF"}}
+	be.saslFn = func(_ *vsession, mech string) (sasl.Server, error) { return m, nil }
+	s, lg := verifServer(be)
+	s.AllowInsecureAuth = true
+	s.MaxLineLength = max
+	head := "EHLO c\r\nAUTH XVERIF\r\n"
+	resp := []string{"AA==\r\n", "*\r\n", "!\r\n"}[verifChoice(3)]
+	probe := []byte("NOOP")
+	for len(probe) < ll-2 {
+		probe = append(probe, ' ')
+	}
+	probe = append(probe, '\r', '\n')
+	assume(len(probe) == ll)
+	in := []byte(head + resp)
+	pstart := len(in)
+	in = append(in, probe...)
+	in = append(in, "MAIL FROM:<a@v>\r\n"...)
+	vc := &vconn{in: in, final: io.EOF}
+	switch verifChoice(4) {
+	case 1:
+		vc.cuts = []int{len(head)}
+	case 2:
+		vc.cuts = []int{len(head), pstart}
+	case 3:
+		vc.seg = 1
+	}
+	c := newConn(vc, s)
+	err := s.handleConn(c)
+	verifSettle()
+	reps, wf := verifParseReplies(vc.out)
+	verifObserve("c19la", ll, m.fail, wf, len(reps), lg.lines)
+	verifAssert(wf && err == nil && lg.lines == 0 && verifPanicEvents() == 0, "C19.auth-limit-clean")
+	if !wf {
+		return
+	}
+	// greeting, EHLO, 334, verdict of the exchange, then the probed line
+	verifAssert(len(reps) >= 5 && reps[2].code == 334, "C19.auth-limit-replies")
+	if len(reps) < 5 {
+		return
+	}
+	r := reps[4]
+	tooLong := r.code == 500 && len(r.lines) == 1 && r.lines[0] == "5.4.0 Too long line, closing connection"
+	if ll >= max+2 {
+		verifReach("C19.auth-over-limit")
+		verifAssert(tooLong && len(reps) == 5 && vc.closed, "C19.auth-over-long-line-refused")
+		verifAssert(be.count("Mail") == 0, "C19.auth-nothing-after-too-long-line")
+	} else if ll <= max {
+		verifReach("C19.auth-within-limit")
+		verifAssert(!tooLong && r.code == 250, "C19.auth-line-within-max-never-refused")
 	}
 }
